@@ -318,7 +318,7 @@ def run_program(res, case):
                     continue
                 if op == "sub" and la < lb:
                     # a negative difference is not a weight: the result is a plain float.  It is judged for operands of
-                    # any magnitude: -(e^lb - e^la) to within (8 + 4 |log of the result|) ulp of the RESULT (turning a
+                    # any magnitude: -(e^lb - e^la) to within (8 + 4 (|b| + |log1m_exp(a - b)|)) ulp of the RESULT (turning a
                     # log-value into a plain value costs |log-value| ulp); -inf where that overflows; never NaN
                     out = a - b
                     if not isinstance(out, float):
@@ -342,7 +342,10 @@ def run_program(res, case):
                     err = ulp_err(out, exact)
                     # log-value of the magnitude: b + log1m_exp(a - b), each term with an error of about one ulp OF ITS
                     # OWN SIZE (~|log|), then exp() turns an absolute error d in the log-value into a relative error d
-                    if err > 8 + 4 * abs(float(log_mag)):
+                    # (the two terms can also cancel: b = 16.06, log1m_exp(a - b) = -16.06 gives a result of magnitude 1 whose
+                    # log-value still carries the absolute error of terms of size 16: the terms' sizes enter, not the sum's)
+                    term = abs(lb) + abs(float(log_mag) - lb)
+                    if err > 8 + 4 * max(abs(float(log_mag)), term):
                         res.fail(key + ":negative-difference:precision", f"LogRepFloat(log_val={la!r}) - LogRepFloat(log_val="
                                  f"{lb!r}) = {out!r}, error {err:.3g} ulp of the result", la=la, lb=lb)
                     continue
